@@ -121,23 +121,24 @@ theorem C18_id_is_mac (i : Info) :
 
 /-! ## ordering of the refresh -/
 
-/-- In every trace of the response-processing model (any requests on any connections, any
-    scheduling of executor jobs, loop callbacks and deferred responses): whenever a refreshed
+/-- In every trace of the response-processing model (any pairing table, any verified sessions,
+    any requests on any connections, session teardown after removals, any scheduling of executor jobs, loop callbacks and deferred responses): whenever a refreshed
     record caused by request `rid` is handed to the advertiser, the response of request `rid` was
     written earlier (`log` is newest-first, so `earlier` is the part of the log before it). -/
-theorem C18_advert_after_response (info : Info) (p : Pairings) (steps : List Step)
-    (later earlier : List Obs) (rid : Nat) (txt : List (String × String))
-    (h : (run (init info p) steps).log = later ++ Obs.publish rid txt :: earlier) :
+theorem C18_advert_after_response (info : Info) (p : Pairings) (sessions : List (Nat × Client))
+    (steps : List Step) (later earlier : List Obs) (rid : Nat) (txt : List (String × String))
+    (h : (run (init info p sessions) steps).log = later ++ Obs.publish rid txt :: earlier) :
     ∃ conn, Obs.write conn rid ∈ earlier :=
-  (good_run _ steps (good_init info p)).ord.split later earlier rid txt h
+  (good_run _ steps (good_init info p sessions)).ord.split later earlier rid txt h
 
 /-- The request tags in the log are meaningful: a request step is given the identifier `nextRid`,
     and in every trace every identifier that occurs in the log (response write, cipher install,
     published record) is below `nextRid`, i.e. belongs to a request dispatched earlier in the
     trace — no entry is ever attributed to a request that has not happened yet. -/
-theorem C18_request_ids_fresh (info : Info) (p : Pairings) (steps : List Step) :
-    ∀ o ∈ (run (init info p) steps).log, o.rid < (run (init info p) steps).nextRid :=
-  (fresh_run _ steps (fresh_init info p)).log
+theorem C18_request_ids_fresh (info : Info) (p : Pairings) (sessions : List (Nat × Client))
+    (steps : List Step) :
+    ∀ o ∈ (run (init info p sessions) steps).log, o.rid < (run (init info p sessions) steps).nextRid :=
+  (fresh_run _ steps (fresh_init info p sessions)).log
 
 /-- Every record handed to the advertiser in a trace states the pairing status of that moment:
     `sf = "1"` iff no controller is paired when the record is built. -/
@@ -154,14 +155,21 @@ theorem C18_published_sf_exact (s : Sys) (st : Step) (rid : Nat) (txt : List (St
     exfalso
     simp only [step, processResponse] at h
     revert h
-    cases (handle s.paired r).2.task <;> cases (handle s.paired r).2.sharedKey <;>
-      cases (handle s.paired r).2.pairingChanged <;> simp
+    by_cases hc : isClosed s conn = true
+    · simp [hc]
+    · simp only [hc, Bool.false_eq_true, if_false]
+      cases (handle s.paired (sessionOf s conn) r).2.task <;>
+        cases (handle s.paired (sessionOf s conn) r).2.sharedKey <;>
+        cases (handle s.paired (sessionOf s conn) r).2.pairingRemoved <;>
+        cases (handle s.paired (sessionOf s conn) r).2.pairingChanged <;> simp
   | taskDone i =>
     exfalso
     simp only [step] at h
     cases hd : s.deferred[i]? with
     | none => simp [hd] at h
-    | some cr => simp [hd] at h
+    | some cr =>
+      obtain ⟨conn, rid'⟩ := cr
+      by_cases hc : isClosed s conn = true <;> simp [hd, hc] at h
   | execRun i =>
     exfalso
     simp only [step] at h
@@ -179,11 +187,13 @@ theorem C18_published_sf_exact (s : Sys) (st : Step) (rid : Nat) (txt : List (St
 /-- The advertised flag follows the pairing state: in every trace, once no refresh is pending
     (executor and loop queues empty) the record held by the advertiser — the newest published
     one, or the one registered at start — says `sf = "1"` iff no controller is paired. -/
-theorem C18_sf_tracks_pairing (info : Info) (p : Pairings) (steps : List Step)
-    (he : (run (init info p) steps).execQ = []) (hl : (run (init info p) steps).loopQ = []) :
-    advertisedSf (initialSf info p) (run (init info p) steps).log
-      = some (if (run (init info p) steps).paired.isEmpty then "1" else "0") := by
-  rcases track_run _ _ steps (track_init info p) with h | h
+theorem C18_sf_tracks_pairing (info : Info) (p : Pairings) (sessions : List (Nat × Client))
+    (steps : List Step)
+    (he : (run (init info p sessions) steps).execQ = [])
+    (hl : (run (init info p sessions) steps).loopQ = []) :
+    advertisedSf (initialSf info p) (run (init info p sessions) steps).log
+      = some (if (run (init info p sessions) steps).paired.isEmpty then "1" else "0") := by
+  rcases track_run _ _ steps (track_init info p sessions) with h | h
   · rcases h with h | h
     · exact absurd he h
     · exact absurd hl h
@@ -193,7 +203,7 @@ theorem C18_sf_tracks_pairing (info : Info) (p : Pairings) (steps : List Step)
     about) is rejected by the ordering statement: completing pair-setup publishes first. -/
 theorem C18_early_refresh_counterexample :
     ∃ (later earlier : List Obs) (rid : Nat) (txt : List (String × String)),
-      (runEarly (init ⟨['x'], 1, [], 1, false, ""⟩ []) [.request 0 (.pairSetupM5 7 true)]).log
+      (runEarly (init ⟨['x'], 1, [], 1, false, ""⟩ [] []) [.request 0 (.pairSetupM5 7 true)]).log
         = later ++ Obs.publish rid txt :: earlier ∧ ¬ ∃ conn, Obs.write conn rid ∈ earlier :=
   ⟨[Obs.write 0 0], [], 0, _, rfl, by simp⟩
 
@@ -299,10 +309,19 @@ example : (valueOps exOps exDb).map (fun a => a.services.map fun s => s.chars.ma
 example : renderNoVal (valueOps exOps exDb) = renderNoVal exDb := rfl
 example : (restart (fun r => r.length) ⟨7, some 1⟩ (valueOps exOps exDb)).1.cfg = 7 := by decide
 example : (restart (fun r => r.length) ⟨65535, some 1⟩ (exDb ++ [⟨2, []⟩])).1.cfg = 1 := by decide
-example : (run (init ⟨['x'], 1, [], 1, false, ""⟩ [])
+example : (run (init ⟨['x'], 1, [], 1, false, ""⟩ [] [(1, 7)])
     [.request 0 (.pairSetupM5 7 true), .execRun 0, .loopRun 0,
-     .request 1 (.removePairing (some 7) 7), .execRun 0, .loopRun 0]).log.map
+     .request 1 (.removePairing 7), .execRun 0, .loopRun 0]).log.map
       (fun o => match o with | .write c r => (0, c, r) | .cipher c r => (1, c, r) | .publish r _ => (2, 0, r))
     = [(2, 0, 1), (0, 1, 1), (2, 0, 0), (0, 0, 0)] := by decide
+/-- the self-removal above closes connection 1 (after its response): a later request on it is
+    not delivered, the refresh still follows the response -/
+example : (run (init ⟨['x'], 1, [], 1, false, ""⟩ [(7, true)] [(1, 7)])
+    [.request 1 (.removePairing 7), .request 1 .other, .request 1 (.pairSetupM5 8 true),
+     .execRun 0, .loopRun 0]).log.map
+      (fun o => match o with | .write c r => (0, c, r) | .cipher c r => (1, c, r) | .publish r _ => (2, 0, r))
+    = [(2, 0, 0), (0, 1, 0)] := by decide
+example : (run (init ⟨['x'], 1, [], 1, false, ""⟩ [(7, true)] [(1, 7)])
+    [.request 1 (.removePairing 7)]).closed = [1] := by decide
 
 end Hap.Advert
